@@ -431,12 +431,156 @@ example :
   | [x, y], e => simp at e
   | x :: y :: z :: r, e => simp at hi
 
+/-! ## string-level forms and the remaining clauses of the statement -/
+
+/-- "every pre-existing `%XX` escape is kept as is", on plain strings: around any occurrence
+of `%` + two hex digits, `safely_quote` works on what precedes and on what follows, and copies
+the escape -/
+theorem quote_keeps_escapes_str (a b : Str) (h1 h2 : Char)
+    (hh1 : isHexDigit h1 = true) (hh2 : isHexDigit h2 = true) :
+    safelyQuote (a ++ '%' :: h1 :: h2 :: b) = safelyQuote a ++ '%' :: h1 :: h2 :: safelyQuote b :=
+  safelyQuote_append_esc hh1 hh2 a b
+
+/-- "everything else is escaped": outside its escapes the output of `safely_quote` only holds
+characters that `urllib.parse.quote` leaves alone (unreserved and `/`), and no stray `%` -/
+theorem quote_rest_escaped (s : Str) :
+    (∀ c, Tok.raw c ∈ tokens (safelyQuote s) → quoteSafe c = true) ∧
+    Tok.stray ∉ tokens (safelyQuote s) := by
+  rw [quote_tokens]
+  constructor
+  · intro c hc
+    simp only [quoteToks, List.mem_flatMap] at hc
+    obtain ⟨t, _, ht⟩ := hc
+    cases t with
+    | raw c0 =>
+      simp only [quoteTok] at ht
+      split at ht
+      · rename_i hq
+        simp only [List.mem_singleton, Tok.raw.injEq] at ht
+        subst ht; exact hq
+      · simp only [List.mem_map] at ht
+        obtain ⟨b, _, hb⟩ := ht
+        simp [escOfByte] at hb
+    | esc h1 h2 => simp [quoteTok] at ht
+    | stray => simp [quoteTok] at ht
+  · intro hc
+    have := canon_quoteToks (wf_tokens s) _ hc
+    exact this
+
+/-- the output of a safe unquoter has no stray `%`: nothing in it can combine with what a
+later pass decodes into a new escape -/
+theorem unquote_no_stray (U : List UInt8) (hU : (0x25 : UInt8) ∈ U) (s : Str) :
+    Tok.stray ∉ tokens (safelyUnquote U s) := by
+  intro h
+  obtain ⟨e, hout, _⟩ := unquote_tokens U hU s
+  rw [e] at h
+  exact canon_of_outTok hU (wf_escapeRaw (wf_tokens s)) (hout _ h)
+
+/-- "leaves escaped every character that delimits its component", for any table: every byte
+of the unsafe set other than the space is a character whose raw occurrences are the same in
+the output and in the input -/
+theorem unquote_delimiters_table (U : List UInt8) (hU : (0x25 : UInt8) ∈ U) (hA : AsciiSet U)
+    (b : UInt8) (hb : b ∈ U) (hsp : b ≠ 0x20) (s : Str) :
+    (tokens (safelyUnquote U s)).count (.raw (Char.ofNat b.toNat)) =
+      (tokens s).count (.raw (Char.ofNat b.toNat)) := by
+  have hlt := hA b hb
+  have hn : (Char.ofNat b.toNat).toNat = b.toNat := toNat_ofNat_of_lt (by omega)
+  apply unquote_delimiters U hU _ (by omega) _ (by rw [hn, UInt8.ofNat_toNat]; exact hb)
+  intro e
+  have : (Char.ofNat b.toNat).toNat = 32 := by rw [e]; rfl
+  rw [hn] at this
+  exact hsp (UInt8.toNat_inj.1 (by simpa using this))
+
+/-- **unquote then quote** (what `canonicalize_url(quoted=True)` applies to a component): the
+scan of `safely_unquote_*(safely_quote(safely_unquote_*(s)))` is the scan of
+`safely_unquote_*(s)` with its raw delimiters and control characters spelled as escapes -/
+theorem unquote_quote_unquote (U : List UInt8) (hU : (0x25 : UInt8) ∈ U) (hA : AsciiSet U) (s : Str) :
+    tokens (safelyUnquote U (safelyQuote (safelyUnquote U s))) =
+      (tokens (safelyUnquote U s)).map (harden U) := by
+  rw [tokens_safelyUnquote U hU, tokens_safelyQuote, escapeRaw_quoteToks, tokens_safelyUnquote U hU]
+  exact unquoteToks_quote_unquote_harden U hU hA _ (wf_escapeRaw (wf_tokens s))
+    (fun c hc => (raw_mem_escapeRaw hc).2)
+
+/-- … hence `safely_quote ∘ safely_unquote_*` is idempotent, for every string -/
+theorem quote_unquote_idempotent (U : List UInt8) (hU : (0x25 : UInt8) ∈ U) (hA : AsciiSet U) (s : Str) :
+    safelyQuote (safelyUnquote U (safelyQuote (safelyUnquote U s))) = safelyQuote (safelyUnquote U s) := by
+  show render (quoteToks (tokens (safelyUnquote U (safelyQuote (safelyUnquote U s))))) =
+    render (quoteToks (tokens (safelyUnquote U s)))
+  rw [unquote_quote_unquote U hU hA, quoteToks_map_harden]
+
+/-! ## the four configurations the public API uses
+
+`safely_unquote_auth_item`, `_path`, `_query_item`, `_fragment` are `safelyUnquote` at the four
+regenerated tables (`tables_flags`: nothing else differs).  Every clause of the statement, for
+each of them, with no hypothesis left. -/
+
+def apiTables : List (List UInt8) :=
+  [Gen.Quote.unsafeForAuthItem, Gen.Quote.unsafeForPath, Gen.Quote.unsafeForQueryItem,
+    Gen.Quote.unsafeForFragment]
+
+theorem api_tables_ok (U : List UInt8) (h : U ∈ apiTables) : (0x25 : UInt8) ∈ U ∧ AsciiSet U := by
+  obtain ⟨p1, p2, p3, p4⟩ := tables_percent_unsafe
+  obtain ⟨a1, a2, a3, a4⟩ := tables_ascii
+  simp only [apiTables, List.mem_cons, List.not_mem_nil, or_false] at h
+  rcases h with rfl | rfl | rfl | rfl
+  · exact ⟨p1, a1⟩
+  · exact ⟨p2, a2⟩
+  · exact ⟨p3, a3⟩
+  · exact ⟨p4, a4⟩
+
+/-- each `safely_unquote_*` function, for every string: same decoded bytes; no raw space; no
+new control character; no stray `%` left; idempotent; idempotent when followed by
+`safely_quote`; commutes with `upper_quoted`; every byte of its own unsafe set other than the
+space has the same raw occurrences in the output as in the input -/
+theorem api_unquote_contract (U : List UInt8) (h : U ∈ apiTables) (s : Str) :
+    pctStr (safelyUnquote U s) = pctStr s ∧
+    ' ' ∉ safelyUnquote U s ∧
+    (∀ ch ∈ safelyUnquote U s, isControl ch → ch ∈ s) ∧
+    Tok.stray ∉ tokens (safelyUnquote U s) ∧
+    safelyUnquote U (safelyUnquote U s) = safelyUnquote U s ∧
+    safelyQuote (safelyUnquote U (safelyQuote (safelyUnquote U s))) = safelyQuote (safelyUnquote U s) ∧
+    safelyUnquote U (upperQuoted s) = upperQuoted (safelyUnquote U s) ∧
+    (∀ b ∈ U, b ≠ 0x20 → (tokens (safelyUnquote U s)).count (.raw (Char.ofNat b.toNat)) =
+      (tokens s).count (.raw (Char.ofNat b.toNat))) := by
+  obtain ⟨hU, hA⟩ := api_tables_ok U h
+  exact ⟨unquote_pct U hU s, unquote_no_space U s, unquote_no_new_control U s,
+    unquote_no_stray U hU s, unquote_idempotent U hU hA s, quote_unquote_idempotent U hU hA s,
+    upper_commutes_unquote U hU s, fun b hb hsp => unquote_delimiters_table U hU hA b hb hsp s⟩
+
+/-- the delimiters of each component, by name: `@ : / ? # [ ]` for a userinfo item, `/ ? #`
+for a path, `& = #` for a query item stay raw where raw and escaped where escaped -/
+theorem api_delimiters (s : Str) :
+    (∀ d ∈ ['@', ':', '/', '?', '#', '[', ']'],
+      (tokens (safelyUnquote Gen.Quote.unsafeForAuthItem s)).count (.raw d) = (tokens s).count (.raw d)) ∧
+    (∀ d ∈ ['/', '?', '#'],
+      (tokens (safelyUnquote Gen.Quote.unsafeForPath s)).count (.raw d) = (tokens s).count (.raw d)) ∧
+    (∀ d ∈ ['&', '=', '#'],
+      (tokens (safelyUnquote Gen.Quote.unsafeForQueryItem s)).count (.raw d) = (tokens s).count (.raw d)) := by
+  have key : ∀ (U : List UInt8), (0x25 : UInt8) ∈ U → ∀ ds : List Char,
+      (∀ d ∈ ds, d.toNat < 0x80 ∧ d ≠ ' ' ∧ UInt8.ofNat d.toNat ∈ U) →
+      ∀ d ∈ ds, (tokens (safelyUnquote U s)).count (.raw d) = (tokens s).count (.raw d) := by
+    intro U hU ds hds d hd
+    obtain ⟨h1, h2, h3⟩ := hds d hd
+    exact unquote_delimiters U hU d h1 h2 h3 s
+  obtain ⟨p1, p2, p3, _⟩ := tables_percent_unsafe
+  exact ⟨key _ p1 _ (by decide), key _ p2 _ (by decide), key _ p3 _ (by decide)⟩
+
 /-! ## non-vacuity: the four regenerated configurations on a string with every kind of token -/
 
 example :
     safelyUnquote Gen.Quote.unsafeForPath "/a%E9b%C3%A9 %41%2F%zz%C2%85%7F%2541".toList
       = "/a%E9bé%20A%2F%25zz%C2%85%7F%2541".toList ∧
     safelyQuote "té%20 %zz/".toList = "t%C3%A9%20%20%25zz/".toList := by
+  decide +kernel
+
+/-- quoted mode on a path with a raw delimiter, a raw control character and a raw non-ASCII
+character: the second round changes nothing, although unquoting the quoted form is not the
+first unquoted form (`?` has become `%3F`) -/
+example :
+    safelyQuote (safelyUnquote Gen.Quote.unsafeForPath "a?é%41\n[".toList) = "a%3F%C3%A9A%0A%5B".toList ∧
+    safelyUnquote Gen.Quote.unsafeForPath "a%3F%C3%A9A%0A%5B".toList = "a%3FéA%0A[".toList ∧
+    safelyUnquote Gen.Quote.unsafeForPath "a?é%41\n[".toList = "a?éA\n[".toList ∧
+    Gen.Quote.unsafeForPath ∈ apiTables := by
   decide +kernel
 
 end Ural.Props.C14
